@@ -803,7 +803,7 @@ def _ite_chain(i, vals):
     return r
 
 
-def cm_final_sum_hook(M, positive=True):
+def cm_final_sum_hook(M, positive=True, argsort_ord=0, sum_ord=0):
     """ghost steps at the final p_models.sum(): unfold the (concrete-length) prefix sum, and show that the smallest draw is counted for
     some model, so that the normaliser is positive.  Every step is a cut (proved from the library axioms in force, then used)."""
     def h(vc, rec):
@@ -812,10 +812,10 @@ def cm_final_sum_hook(M, positive=True):
             vc.cut('unfold the sum of the %d unnormalised weights at %d' % (M, j), ps(j + 1) == ps(j) + arr.at(j))
         if not positive:
             return
-        p = vc.libcalls['np.argsort'][0]
+        p = vc.libcalls['np.argsort'][argsort_ord]
         vc.cut('the first sorted index is a valid position', z3.Implies(p.n >= 1, z3.And(0 <= p.pi(0), p.pi(0) < p.n)))
         for i in range(M):
-            mk = vc.libcalls['np.sum'][i]['mask']
+            mk = vc.libcalls['np.sum'][sum_ord + i]['mask']
             k, sel, rank, msk = mk.select()
             vc.cut('model %d: a counted first draw makes the count positive' % i, z3.And(k >= 0, z3.Implies(z3.And(msk.shape[0] >= 1, msk.at(0)), k >= 1)))
     return h
@@ -909,9 +909,235 @@ def cm_witness(s_x, model, M, priors):
     return w
 
 
+# ---------------------------------------------------------------- permutation covariance: counts do not depend on the list order
+def perm_axioms(N, pi, pinv):
+    return forall_range(0, N, lambda i: z3.And(0 <= pi(i), pi(i) < N, pinv(pi(i)) == i, 0 <= pinv(i), pinv(i) < N, pi(pinv(i)) == i), 'i')
+
+
+def sorted_by(N, pi, d):
+    return forall2_range(0, N, lambda i, j: z3.Implies(i <= j, d(pi(i)) <= d(pi(j))))
+
+
+def count_witness(k, sel, rank, nmin, member):
+    """k = |{t < nmin : member(t)}|, witnessed by the bijection (sel, rank)"""
+    return z3.And(k >= 0,
+                  forall_range(0, k, lambda u: z3.And(0 <= sel(u), sel(u) < nmin, member(sel(u)), rank(sel(u)) == u), 'u'),
+                  forall_range(0, nmin, lambda t: z3.Implies(member(t), z3.And(0 <= rank(t), rank(t) < k, sel(rank(t)) == t)), 't'))
+
+
+def pigeonhole(n, m, f):
+    """Lean-certified (lemmas/L1.lean, pigeonhole_range): an injection of [0,n) into [0,m) forces n <= m"""
+    return z3.Implies(z3.And(n >= 0, m >= 0, forall_range(0, n, lambda i: z3.And(0 <= f(i), f(i) < m), 'i'),
+                             forall2_range(0, n, lambda i, j: z3.Implies(i != j, f(i) != f(j)))), n <= m)
+
+
+def counts_agree_hyps(a):
+    """a: NS(N, nmin, d1, d2, pi1, pinv1, pi2, pinv2, phi, psi, in1, in2, k1, sel1, rank1, k2, sel2, rank2).
+    Two orderings of the same joint sample (d2 = d1 o phi, phi a bijection of [0,N) with inverse psi, mapping the positions of one model's draws in
+    the second order onto its positions in the first), each sorted by its own argsort, no tie at the cut of the first."""
+    N, nmin = a.N, a.nmin
+    return [('1 <= n_min <= N', z3.And(1 <= nmin, nmin <= N)),
+            ('pi1 is a permutation of [0,N)', perm_axioms(N, a.pi1, a.pinv1)),
+            ('pi1 sorts the first ordering', sorted_by(N, a.pi1, a.d1)),
+            ('pi2 is a permutation of [0,N)', perm_axioms(N, a.pi2, a.pinv2)),
+            ('pi2 sorts the second ordering', sorted_by(N, a.pi2, a.d2)),
+            ('phi / psi are mutually inverse bijections of [0,N)', forall_range(0, N, lambda g: z3.And(0 <= a.phi(g), a.phi(g) < N, a.psi(a.phi(g)) == g,
+                                                                                                       0 <= a.psi(g), a.psi(g) < N, a.phi(a.psi(g)) == g), 'g')),
+            ('the second ordering is the first one re-indexed by phi', forall_range(0, N, lambda g: a.d2(g) == a.d1(a.phi(g)), 'g')),
+            ('no tie at the cut', z3.Or(nmin == N, a.d1(a.pi1(nmin - 1)) < a.d1(a.pi1(nmin)))),
+            ('phi maps the positions of the model in the second ordering onto its positions in the first', forall_range(0, N, lambda g: a.in2(g) == a.in1(a.phi(g)), 'g')),
+            ('k1 counts the chosen draws of the model in the first ordering', count_witness(a.k1, a.sel1, a.rank1, nmin, lambda t: a.in1(a.pi1(t)))),
+            ('k2 counts the chosen draws of the model in the second ordering', count_witness(a.k2, a.sel2, a.rank2, nmin, lambda t: a.in2(a.pi2(t))))]
+
+
+def stmt_counts_agree(a):
+    return z3.And([f for _, f in counts_agree_hyps(a)]), a.k1 == a.k2
+
+
+class LemmaCountsAgree(Contract):
+    """with no tie at the cut the number of a model's draws among the n_min jointly smallest does not depend on the order of the model list"""
+    target = '@verif/lemmas/c17_lemmas.py::lemma_counts_agree'
+    prop = 'C17'
+    fin = 3
+    fin_range = 4
+
+    def setup(self, vc):
+        N, nmin, k1, k2 = z3.Ints('N nmin k1 k2')
+        fI = lambda nm: z3.Function(nm, I, I)
+        a = NS(N=N, nmin=nmin, k1=k1, k2=k2, d1=z3.Function('d1', I, R), d2=z3.Function('d2', I, R), in1=z3.Function('in1', I, B), in2=z3.Function('in2', I, B),
+               pi1=fI('pi1'), pinv1=fI('pinv1'), pi2=fI('pi2'), pinv2=fI('pinv2'), phi=fI('phi'), psi=fI('psi'),
+               sel1=fI('sel1'), rank1=fI('rank1'), sel2=fI('sel2'), rank2=fI('rank2'))
+        vc.fin_bounds.extend([N, nmin, k1, k2])
+        hyp, goal = stmt_counts_agree(a)
+        s = NS(a=a, hyp=hyp, goal=goal)
+        vc._s = s
+        return s, (), {}
+
+    def requires(self, s):
+        return [s.hyp]
+
+    def env(self, vc):
+        a = vc._s.a
+        N, nmin = a.N, a.nmin
+        tau = a.d1(a.pi1(nmin - 1))
+
+        def chosen_stays_chosen(first_to_second):
+            """Claim A (first_to_second) : pinv1(g) < nmin => pinv2(psi g) < nmin;  Claim B: pinv2(g) < nmin => pinv1(phi g) < nmin.
+            A counterexample g0 is named by a Skolem constant; the pigeonhole instance refutes it."""
+            g0 = vc.fresh_int('g0')
+            if first_to_second:
+                here, there, mp = a.pinv1, a.pinv2, a.psi
+            else:
+                here, there, mp = a.pinv2, a.pinv1, a.phi
+            bad = lambda g: z3.And(here(g) < nmin, there(mp(g)) >= nmin)
+            claim = forall_range(0, N, lambda g: z3.Not(bad(g)), 'g')
+            vc.assume(z3.Implies(exists_range(0, N, bad, 'g'), z3.And(0 <= g0, g0 < N, bad(g0))))       # Skolem definition of the fresh constant g0
+            Bd = z3.And(0 <= g0, g0 < N, bad(g0))
+            vc.cut('a counterexample needs a proper cut', z3.Implies(Bd, z3.And(nmin < N, tau < a.d1(a.pi1(nmin)))))
+            if first_to_second:
+                t0 = a.pinv2(a.psi(g0))
+                f = lambda t: a.pinv1(a.phi(a.pi2(t)))
+                vc.cut('A1: the counterexample is not above the cut value', z3.Implies(Bd, z3.And(a.d1(g0) <= tau, a.d2(a.pi2(t0)) == a.d1(g0), 0 <= t0, t0 < N)))
+                vc.cut('A2: everything sorted before it in the second ordering is not above the cut value',
+                       z3.Implies(Bd, forall_range(0, t0 + 1, lambda t: a.d2(a.pi2(t)) <= tau, 't')))
+                vc.cut('A3: ... hence chosen in the first ordering', z3.Implies(Bd, forall_range(0, t0 + 1, lambda t: z3.And(0 <= f(t), f(t) < nmin), 't')))
+                vc.cut('A3a: the maps involved undo each other there',
+                       z3.Implies(Bd, forall_range(0, t0 + 1, lambda t: z3.And(0 <= a.pi2(t), a.pi2(t) < N, a.pinv2(a.pi2(t)) == t, 0 <= a.phi(a.pi2(t)), a.phi(a.pi2(t)) < N,
+                                                                               a.psi(a.phi(a.pi2(t))) == a.pi2(t), a.pi1(f(t)) == a.phi(a.pi2(t))), 't')))
+                vc.cut('A4: injectively', z3.Implies(Bd, forall2_range(0, t0 + 1, lambda i, j: z3.Implies(i != j, f(i) != f(j)))))
+                vc.assume(z3.Implies(Bd, pigeonhole(t0 + 1, nmin, f)))
+            else:
+                t0 = a.pinv2(g0)
+                f = lambda t: a.pinv2(a.psi(a.pi1(t)))
+                vc.cut('B1: the counterexample is above the cut value', z3.Implies(Bd, z3.And(a.d2(g0) > tau, a.d2(a.pi2(t0)) == a.d2(g0), 0 <= t0, t0 < nmin)))
+                vc.cut('B2: every draw chosen in the first ordering is sorted before it in the second',
+                       z3.Implies(Bd, forall_range(0, nmin, lambda t: z3.And(0 <= f(t), f(t) < t0), 't')))
+                vc.cut('B3a: the maps involved undo each other there',
+                       z3.Implies(Bd, forall_range(0, nmin, lambda t: z3.And(0 <= a.pi1(t), a.pi1(t) < N, a.pinv1(a.pi1(t)) == t, 0 <= a.psi(a.pi1(t)), a.psi(a.pi1(t)) < N,
+                                                                             a.phi(a.psi(a.pi1(t))) == a.pi1(t), a.pi2(f(t)) == a.psi(a.pi1(t))), 't')))
+                vc.cut('B4: injectively', z3.Implies(Bd, forall2_range(0, nmin, lambda i, j: z3.Implies(i != j, f(i) != f(j)))))
+                vc.assume(z3.Implies(Bd, pigeonhole(nmin, t0, f)))
+            vc.cut('there is no counterexample', z3.Not(Bd))
+            vc.cut('chosen in one ordering <=> chosen in the other (this direction)', claim)
+
+        def count_le(first_to_second):
+            if first_to_second:
+                k, kk, sel, pi, pinv, inn, mp, unmp = a.k1, a.k2, a.sel1, a.pi1, a.pinv1, a.in1, a.psi, a.phi
+                pi_o, pinv_o, in_o, rk, back = a.pi2, a.pinv2, a.in2, a.rank2, a.sel2
+            else:
+                k, kk, sel, pi, pinv, inn, mp, unmp = a.k2, a.k1, a.sel2, a.pi2, a.pinv2, a.in2, a.phi, a.psi
+                pi_o, pinv_o, in_o, rk, back = a.pi1, a.pinv1, a.in1, a.rank1, a.sel1
+            g = lambda u: pi(sel(u))                 # the u-th counted draw (position in this ordering's concatenation)
+            go = lambda u: mp(g(u))                  # the same draw in the other ordering's concatenation
+            h = lambda u: pinv_o(go(u))              # its sorted position there
+            f = lambda u: rk(h(u))                   # its rank among the draws counted there
+            vc.cut('C0a: a counted draw is a chosen draw of the model', forall_range(0, k, lambda u: z3.And(0 <= g(u), g(u) < N, pinv(g(u)) == sel(u), pinv(g(u)) < nmin, inn(g(u))), 'u'))
+            vc.cut('C0b: it is a draw of the same model in the other ordering, chosen there as well',
+                   forall_range(0, k, lambda u: z3.And(0 <= go(u), go(u) < N, unmp(go(u)) == g(u), in_o(go(u)), 0 <= h(u), h(u) < nmin, pi_o(h(u)) == go(u)), 'u'))
+            vc.cut('C1: ... hence counted there', forall_range(0, k, lambda u: z3.And(0 <= f(u), f(u) < kk, back(f(u)) == h(u)), 'u'))
+            vc.cut('C2: distinct counted draws have distinct positions in the other ordering', forall2_range(0, k, lambda i, j: z3.Implies(h(i) == h(j), sel(i) == sel(j))))
+            vc.cut('C3: ... and distinct ranks', forall2_range(0, k, lambda i, j: z3.Implies(i != j, f(i) != f(j))))
+            vc.assume(pigeonhole(k, kk, f))
+            vc.cut('count inequality', k <= kk)
+        return dict(chosen_stays_chosen=chosen_stays_chosen, count_le=count_le)
+
+    def ensures(self, s, result):
+        return [('k1 = k2', s.goal)]
+
+
+class PermutedModels(Contract):
+    """two calls of the REAL compare_models: on a model list and on the list permuted by `perm` (list2[j] = list1[perm[j]], prior weights
+    permuted alike).  If there is no tie at the cut (the n_min-th and (n_min+1)-th smallest joint discrepancies differ, or every draw is counted)
+    the probabilities are permuted alike.  With a tie at the cut the counts depend on argsort's tie order: not a function of the multiset."""
+    target = '@verif/lemmas/c17_lemmas.py::lemma_permuted_models'
+    prop = 'C17'
+    fin = 3
+
+    def __init__(self, perm, priors):
+        self.perm, self.priors = tuple(perm), priors
+        self.M = len(perm)
+        self.label = 'order-%s,%s' % (''.join(str(j) for j in perm), 'prior-weights' if priors else 'no-priors')
+        self.fin_range = 3 * self.M + 1
+
+    def setup(self, vc):
+        M, perm = self.M, self.perm
+        x = cm_inputs(vc, M, self.priors)
+        vc.fin_bounds.extend(x.ns + x.sims)
+        x2 = NS(M=M, ns=[x.ns[j] for j in perm], sims=[x.sims[j] for j in perm], dv=[x.dv[j] for j in perm], objs=[x.objs[j] for j in perm],
+                pri=None if x.pri is None else [x.pri[j] for j in perm])
+        s = NS(x=x, x2=x2, sp=cm_spec(x), sp2=cm_spec(x2))
+        return s, (list(x.objs), cm_priors_arg(x), list(x2.objs), cm_priors_arg(x2)), {}
+
+    def env(self, vc):
+        return {'compare_models': inline(vc, MS + 'compare_models')}
+
+    def requires(self, s):
+        return cm_pre(s.x)
+
+    def hooks(self, s):
+        M = self.M
+        return {('np.sum', M): cm_final_sum_hook(M, True, 0, 0), ('np.sum', 2 * M + 1): cm_final_sum_hook(M, True, 1, M + 1)}
+
+    def lemmas_at_exit(self, s, result):
+        vc = cur()
+        M, perm = self.M, self.perm
+        inv = [perm.index(i) for i in range(M)]
+        if len(vc.libcalls.get('np.argsort', [])) != 2 or len(vc.libcalls.get('np.sum', [])) != 2 * M + 2:
+            return []
+        p1, p2 = vc.libcalls['np.argsort']
+        sp, sp2 = s.sp, s.sp2
+        N, nmin = sp.N, sp.nmin
+        vc.cut('n_min and the total size do not depend on the order', z3.And(sp2.N == N, sp2.nmin == nmin))
+        vc.cut('call 1 sorts the concatenation in list order', z3.And(p1.n == N, forall_range(0, N, lambda g: p1.of.at(g) == sp.dcat(g), 'g')))
+        vc.cut('call 2 sorts the concatenation in the permuted order', z3.And(p2.n == N, forall_range(0, N, lambda g: p2.of.at(g) == sp2.dcat(g), 'g')))
+
+        def phi(g):          # position in concatenation 2 -> position of the same draw in concatenation 1
+            r = g - sp2.low[M - 1] + sp.low[perm[M - 1]]
+            for j in reversed(range(M - 1)):
+                r = z3.If(g < sp2.low[j + 1], g - sp2.low[j] + sp.low[perm[j]], r)
+            return r
+
+        def psi(g):
+            r = g - sp.low[M - 1] + sp2.low[inv[M - 1]]
+            for i in reversed(range(M - 1)):
+                r = z3.If(g < sp.low[i + 1], g - sp.low[i] + sp2.low[inv[i]], r)
+            return r
+        s.H = z3.Or(nmin == N, sp.dcat(p1.pi(nmin - 1)) < sp.dcat(p1.pi(nmin)))
+        s.keq = []
+        for j in range(M):
+            i = perm[j]
+            k1, sel1, rank1, _ = vc.libcalls['np.sum'][i]['mask'].select()
+            k2, sel2, rank2, _ = vc.libcalls['np.sum'][M + 1 + j]['mask'].select()
+            a = NS(N=N, nmin=nmin, d1=sp.dcat, d2=sp2.dcat, pi1=p1.pi, pinv1=p1.pinv, pi2=p2.pi, pinv2=p2.pinv, phi=phi, psi=psi,
+                   in1=(lambda g, i=i: z3.And(sp.low[i] <= g, g < sp.low[i + 1])), in2=(lambda g, j=j: z3.And(sp2.low[j] <= g, g < sp2.low[j + 1])),
+                   k1=k1, sel1=sel1, rank1=rank1, k2=k2, sel2=sel2, rank2=rank2)
+            pieces = counts_agree_hyps(a)
+            for nm, f in pieces:
+                if nm == 'no tie at the cut':
+                    continue
+                if j > 0 and not (nm.startswith('k1 ') or nm.startswith('k2 ') or nm.startswith('phi maps')):
+                    continue                       # the order facts were cut for j = 0 (same formulas)
+                vc.cut('model %d of the permuted list: %s' % (j, nm), f)
+            hyp, goal = stmt_counts_agree(a)
+            vc.assume(z3.Implies(hyp, goal))         # proved by LemmaCountsAgree
+            vc.cut('model %d of the permuted list is counted as model %d of the original list' % (j, i), z3.Implies(s.H, k1 == k2))
+            s.keq.append((k1, k2))
+        return []
+
+    def ensures(self, s, result):
+        if not s.has('H') or not (isinstance(result, tuple) and len(result) == 2 and _bi.all(isinstance(r, SArr) and r.ndim == 1 for r in result)):
+            return [('two result vectors from two argsorts and one count per model and call', z3.BoolVal(False))]
+        r1, r2 = result
+        return [('no tie at the cut: permuting the model list permutes the probabilities',
+                 z3.Implies(s.H, z3.And(r1.shape[0] == self.M, r2.shape[0] == self.M, z3.And([r2.at(j) == r1.at(self.perm[j]) for j in range(self.M)]))))]
+
+    def witness(self, vc, model, ob):
+        return cm_witness(None, model, self.M, self.priors)
+
+
 CONTRACTS = [InputVariables(1), InputVariables(3), GetFinite(1), GetFinite(2), Pairs(2), Fit(1, True), Fit(2, False),
              Adjust1(), Adjust(2), AdjustPosterior(1, 'linear'), AdjustPosterior(2, 'instance'),
-             LemmaSumExt(), LemmaSignCancels(),
+             LemmaSumExt(), LemmaSignCancels(), LemmaCountsAgree(), PermutedModels((1, 0), True),
              CompareModels(2, False), CompareModels(2, True), CompareModels(3, False), CompareModels(3, True), CompareModels(3, True, guarded=True)]
 TRUSTED_BASE = ['sklearn.linear_model.LinearRegression (assumed library, recording stub): fit(X, y) returns the object itself and sets coef_ to the '
                 'least-squares slope of y on X with an intercept, one entry per column (sanity-tested against numpy.linalg.lstsq each run, '
@@ -984,7 +1210,7 @@ def replay_refuted(cname, rf):
     """a refuted obligation: first try the finitised counter-model as a native input (compare_models), then search the bounded grid of the
     half of the property the obligation belongs to for a failing input of the executable statement on the real code"""
     from bounded import c17 as b
-    half = 'compare' if ('compare_models' in cname or 'lemma_swap' in cname) else 'adjust'
+    half = 'compare' if ('compare_models' in cname or 'lemma_permuted' in cname or 'lemma_counts' in cname) else 'adjust'
     w = rf.get('witness') or {}
     if half == 'compare' and w.get('discrepancies') and all(len(d) >= 1 for d in w['discrepancies']):
         inp = dict(kind='compare', discrepancies=w['discrepancies'], n_sim=w['n_sim'], priors=w.get('priors'), perm=None)
